@@ -36,6 +36,17 @@ def call(name, nargs, globals_, builtins=True, locals_=None):
         return ('host', type(exc).__name__, len(log))
 
 
+def call_noopt(name, nargs, locals_):
+    """the same call with NO options object at all (evaluate_expression(expr, None, locals)): same value, same failure value"""
+    expr = {'function': {'name': name, 'args': [{'variable': f'x{i}'} for i in range(nargs)]}}
+    try:
+        return ('ok', evaluate_expression(expr, None, locals_, True), 0)
+    except BareScriptRuntimeError as exc:
+        return ('rt', str(exc), 0)
+    except Exception as exc:  # pylint: disable=broad-except
+        return ('host', type(exc).__name__, 0)
+
+
 def main():
     spec = json.load(sys.stdin)[0]
     r = random.Random(spec['seed'])
@@ -52,6 +63,10 @@ def main():
             gt[target] = SCRIPT_FUNCTIONS[target]
             ra = call(alias, nargs, ga)
             rt = call(target, nargs, gt)
+            rn0 = call_noopt(alias, nargs, dict(args))
+            if rn0[0] != ra[0] or (ra[0] == 'ok' and not same(rn0[1], ra[1])):
+                failures.append({'alias': alias, 'target': target, 'args': repr(args)[:300] + ' (no options object)', 'alias_result': repr(rn0)[:300],
+                                 'target_result': repr(ra)[:300]})
             checked += 1
             if ra[0] != rt[0] or (ra[0] == 'ok' and not same(ra[1], rt[1])) or (ra[0] != 'ok' and ra[1] != rt[1] and ra[0] != 'rt'):
                 failures.append({'alias': alias, 'target': target, 'args': repr(args)[:300], 'alias_result': repr(ra)[:300], 'target_result': repr(rt)[:300]})
